@@ -65,6 +65,7 @@ Inductive position :=
   | PNotOperand | PNegOperand | PBinLeft | PBinRight | PBoolLeft | PBoolRight
   | PCompareLeft | PCompareRight | PSubscriptObject | PSubscriptIndex | PSliceBound | PAttributeObject
   | PMethodCallObject | PCalledResult | PWithItem | PWithItemAs | PForIter | PFString
+  | PFStringSpecWidth | PFStringSpecPrecision | PFStringSpecFirst | PFStringSpecOfSecond | PFStringConversion | PFStringDebug | PFStringWithSpec | PFStringSecond | PFStringNested
   | PListElt | PTupleElt | PSetElt | PDictKey | PDictValue | PDictSplat
   | PListCompElt | PListCompIter | PListCompCond | PDictCompValue | PSetCompElt | PGenExpElt
   | PLambdaBody | PNestedDefDefault | PNestedDefDecorator | PNestedDefDecoratorArg | PYieldValue | PWalrusValue
@@ -81,6 +82,7 @@ Definition all_positions : list position :=
    PNotOperand; PNegOperand; PBinLeft; PBinRight; PBoolLeft; PBoolRight;
    PCompareLeft; PCompareRight; PSubscriptObject; PSubscriptIndex; PSliceBound; PAttributeObject;
    PMethodCallObject; PCalledResult; PWithItem; PWithItemAs; PForIter; PFString;
+   PFStringSpecWidth; PFStringSpecPrecision; PFStringSpecFirst; PFStringSpecOfSecond; PFStringConversion; PFStringDebug; PFStringWithSpec; PFStringSecond; PFStringNested;
    PListElt; PTupleElt; PSetElt; PDictKey; PDictValue; PDictSplat;
    PListCompElt; PListCompIter; PListCompCond; PDictCompValue; PSetCompElt; PGenExpElt;
    PLambdaBody; PNestedDefDefault; PNestedDefDecorator; PNestedDefDecoratorArg; PYieldValue; PWalrusValue;
@@ -149,6 +151,19 @@ Definition pos_path (p : position) : option (list field) :=
   | PWithItemAs => Some [FBody; FBody; FChildren; FValue]
   | PForIter => Some [FBody; FBody; FIter]
   | PFString => Some [FBody; FBody; FValue; FChildren; FValue]
+  (* f-strings beyond the plain interpolation: a replacement field nested in the format specification
+     (width / precision: buildFormattedString turns EVERY child of the interpolation into a FormattedValue, the
+     format_specifier child becomes a node whose Children hold the nested interpolation's expression), the
+     conversion / debug / spec suffixes next to the expression, a later interpolation, an f-string inside an f-string *)
+  | PFStringSpecWidth => Some [FBody; FBody; FValue; FChildren; FValue; FChildren; FChildren]
+  | PFStringSpecPrecision => Some [FBody; FBody; FValue; FChildren; FValue; FChildren; FChildren]
+  | PFStringSpecFirst => Some [FBody; FBody; FValue; FChildren; FValue; FChildren; FChildren]
+  | PFStringSpecOfSecond => Some [FBody; FBody; FValue; FChildren; FValue; FChildren; FChildren]
+  | PFStringConversion => Some [FBody; FBody; FValue; FChildren; FValue]
+  | PFStringDebug => Some [FBody; FBody; FValue; FChildren; FValue]
+  | PFStringWithSpec => Some [FBody; FBody; FValue; FChildren; FValue]
+  | PFStringSecond => Some [FBody; FBody; FValue; FChildren; FValue]
+  | PFStringNested => Some [FBody; FBody; FValue; FChildren; FValue; FChildren; FValue]
   | PListElt => Some [FBody; FBody; FValue; FChildren]
   | PTupleElt => Some [FBody; FBody; FValue; FChildren]
   | PSetElt => Some [FBody; FBody; FValue; FChildren]
